@@ -205,7 +205,7 @@ fn validate_header_v1(file: &mut File) -> io::Result<()> {
 
 #[cfg(kani)]
 #[path = "/verif/harness/ripd/message_ordinal_index.rs"]
-mod verif_kani;
+pub mod verif_kani;
 
 #[cfg(test)]
 mod tests {
